@@ -180,3 +180,43 @@ Theorem C12_two_member_header_is_an_instance : forall S B bl ng,
   rd S (enc_dim S B bl ng) (h_ng (std_hlay S B)) = Some ng.
 Proof. exact two_member_header_instance. Qed.
 Print Assumptions C12_two_member_header_is_an_instance.
+
+(* ---- statements about the expression trees REGENERATED on every run from
+   clang's typed AST of /repo's current random_access_iterator (SrcExprs.v,
+   harness/srcexprs.py), all 16 header type pairs ---- *)
+From Coq Require Import String.
+From Sbepp Require Import CExpr SrcExprs SrcExprsProofs.
+Import ListNotations.
+Local Open Scope string_scope.
+
+Theorem C12_source_add_assign_exact : forall S B n bl idx,
+  is_uns S = true -> is_uns B = true ->
+  in_range (dty S) n = true -> in_range B bl = true -> in_range S idx = true ->
+  in_range S (idx + n) = true -> - 2 ^ 63 < n * bl < 2 ^ 63 ->
+  effs_eval [("n", n); ("block_length", bl); ("index", idx)] (src_it_add S B) = Some [n * bl; idx + n].
+Proof. exact src_it_add_assign_exact. Qed.
+Print Assumptions C12_source_add_assign_exact.
+
+Theorem C12_source_add_assign_is_the_model : forall S B n bl idx,
+  is_uns S = true -> is_uns B = true ->
+  in_range (dty S) n = true -> in_range B bl = true -> in_range S idx = true ->
+  effs_eval [("n", n); ("block_length", bl); ("index", idx)] (src_it_add S B)
+  = match offset_fixed S B n bl, idx_add S idx n with
+    | Some off, GOk ix => Some [off; ix]
+    | _, _ => None
+    end.
+Proof. exact src_it_add_assign_is_model. Qed.
+Print Assumptions C12_source_add_assign_is_the_model.
+
+Theorem C12_source_difference_is_the_model : forall S B a b,
+  is_uns S = true -> is_uns B = true ->
+  in_range S (i_idx a) = true -> in_range S (i_idx b) = true ->
+  effs_eval [("index", i_idx a); ("rhs.index", i_idx b)] (src_it_diff S B)
+  = match it_diff S a b with GOk d => Some [d] | _ => None end.
+Proof. exact src_it_diff_is_model. Qed.
+Print Assumptions C12_source_difference_is_the_model.
+
+Theorem C12_source_statement_targets : forall S B, is_uns S = true -> is_uns B = true ->
+  map eff_target (src_it_add S B) = ["ptr+="; "index="] /\ map eff_target (src_it_diff S B) = ["return"].
+Proof. exact src_it_targets. Qed.
+Print Assumptions C12_source_statement_targets.
